@@ -1,6 +1,8 @@
 """C17 -- execution-stream ranks and stream lifecycle (structural part)."""
-from abtverif import cfg, locks, seq
-from abtverif.seq import idx, is_call, show, has_if, held_at
+import re
+
+from abtverif import canon, cfg, locks, seq, tables
+from abtverif.seq import idx, is_call, show
 from . import common, C02, C06
 
 EXPLANATION = (
@@ -19,6 +21,7 @@ EXPLANATION = (
 DECLINED = ["'smallest unused rank' (loop arithmetic over the sorted list)", "repeated revive histories"]
 ASSUMPTIONS = ["pthread mutex/cond semantics"]
 RULES_DOC = dict(common.SHARED_DOC)
+RULES_DOC["X4"] = common.X4_DOC
 RULES_DOC.update({
     "R1": "stream list mutations, rank stores, num_xstreams updates and list scans hold xstream_list_lock",
     "R2": "duplicate scan and insertion in one critical section; duplicate arm: release, return FALSE, list untouched",
@@ -31,8 +34,90 @@ VARIANTS = ["no_ext_thread", "tool_interface"]
 S = "src/stream.c"
 
 
+# ---- local engine helpers (name-independent identities) -------------------------------------
+
+class _RootedLockTS(locks.LockTS):
+    """locks.LockTS whose lock identity does not depend on how the function names its locals: the key
+    is the access path of the lock argument rooted at a parameter or at the expression a local pointer
+    was loaded from (canon.rooted), so `ABTD_spinlock *p_lock = &p_global->xstream_list_lock;
+    acquire(p_lock)` and `acquire(&p_global->xstream_list_lock)` denote the same lock.  The field name
+    (the repository's vocabulary) is always the last component."""
+
+    def event(self, F, nid, st, ctx):
+        nd = F.nodes[nid]
+        fn = nd.get("fn") if nd.get("k") == "call" else None
+        tabs = (tables.LOCK_ACQUIRE, tables.LOCK_RELEASE, tables.LOCK_RELEASE_TRANSFER, tables.LOCK_COND_ACQUIRE)
+        tab = next((t for t in tabs if fn in t), None)
+        if tab is None:
+            return locks.LockTS.event(self, F, nid, st, ctx)
+        held, asm = st
+        self.at.setdefault(nid, set()).add(held)
+        key = canon.rooted(F, nd["a"][tab[fn]])
+        if tab is tables.LOCK_ACQUIRE:
+            if key in held:
+                self.errors.append((nid, "lock %s acquired while already held" % key))
+            return (held | {key}, asm)
+        if tab is tables.LOCK_RELEASE:
+            if key not in held:
+                self.errors.append((nid, "lock %s released while not held" % key))
+            return (held - {key}, asm)
+        if tab is tables.LOCK_RELEASE_TRANSFER:
+            if key not in held:
+                self.errors.append((nid, "%s called without holding %s" % (fn, key)))
+            return (held - {key}, asm)
+        var = self._result_var(F, nid)
+        asm2 = frozenset(a for a in asm if a[0] != nid)
+        return {(held | {key}, asm2 | {(nid, True, var)}), (held - {key}, asm2 | {(nid, False, var)})}
+
+
+def _run_locks(P, F):
+    ts = _RootedLockTS(P)
+    cfg.simulate(F, ts)
+    return ts
+
+
+def _is_lock(key, field):
+    """Does the rooted lock key denote `<object>->field` / `<object>.field`?"""
+    return re.search(r"(->|\.)%s$" % re.escape(field), key) is not None
+
+
+def _look(F, i, depth=3):
+    """(node, position) of expression i after looking through local temporaries that have exactly one
+    reaching definition (`n = p->num_pools; ... i < n` gives the member access)."""
+    at = i
+    i = F.strip(i)
+    while depth > 0:
+        nd = F.nodes[i]
+        if nd.get("k") != "ref" or nd.get("dk") != "var":
+            break
+        d = canon.reaching_def(F, nd["n"], at)
+        if not isinstance(d, int) or F.nodes[F.strip(d)].get("k") in ("ilist", "zero"):
+            break
+        at = d
+        i = F.strip(d)
+        depth -= 1
+    return i, at
+
+
+def _word(name):
+    return re.compile(r"(?<![A-Za-z0-9_:>.])%s(?![A-Za-z0-9_])" % re.escape(name))
+
+
+def _macros_through(F, node, depth=2):
+    """Macros whose expansion produced the condition `node`, also when part of the test was first
+    stored in a local (`int replace = req & ABTI_SCHED_REQ_REPLACE; if (replace)`)."""
+    ms = set(seq.macros_in(F, node))
+    if depth > 0:
+        for d in F.descendants(node):
+            nd = F.nodes[d]
+            if nd.get("k") == "ref" and nd.get("dk") == "var":
+                r = canon.reaching_def(F, nd["n"], d)
+                if isinstance(r, int):
+                    ms |= _macros_through(F, r, depth - 1)
+    return ms
+
+
 def rule_R1_R2_R3(P, rep):
-    LOCK = "&p_global->xstream_list_lock"
     listops = {"xstream_add_xstream_list", "xstream_remove_xstream_list"}
     n = 0
     for F in sorted(P.functions.values(), key=lambda f: (f.file, f.line)):
@@ -45,7 +130,7 @@ def rule_R1_R2_R3(P, rep):
                 scans.append(i)
         if F.name in listops or not (ops or cnt or rk or scans):
             continue
-        ts = locks.run_locks(P, F)
+        ts = _run_locks(P, F)
         pm = F.parent_map()
         for kind, sites in (("list mutation", [i for b, i in ops]), ("num_xstreams update", [i for b, i in cnt]),
                             ("rank store", [i for b, i in rk]), ("list scan", scans)):
@@ -56,7 +141,7 @@ def rule_R1_R2_R3(P, rep):
                 if j is None:
                     continue
                 helds = ts.at[j]
-                ok = bool(helds) and all(any("xstream_list_lock" in k for k in h) for h in helds)
+                ok = bool(helds) and all(any(_is_lock(k, "xstream_list_lock") for k in h) for h in helds)
                 exc = None
                 if not ok and kind == "rank store" and F.name in ("xstream_create",):
                     exc = "field initialisation before the stream is inserted"
@@ -68,7 +153,7 @@ def rule_R1_R2_R3(P, rep):
                 rep.ob("R1", "%s: %s under xstream_list_lock%s" % (F.name, kind, " (exception: %s)" % exc if exc else ""),
                        ok or exc is not None, "lock sets %s" % sorted(sorted(h) for h in helds), loc=F.loc(i),
                        site="%s/%s" % (F.name, kind))
-        unb = [(k, nid, h) for k, nid, h, rv in ts.exits if k == "ret" and any("xstream_list_lock" in x for x in h)]
+        unb = [(k, nid, h) for k, nid, h, rv in ts.exits if k == "ret" and any(_is_lock(x, "xstream_list_lock") for x in h)]
         rep.ob("R1", "%s releases xstream_list_lock on every exit" % F.name, not unb and not ts.errors,
                str([(F.loc(nn) if nn is not None else "", sorted(h)) for k, nn, h in unb]) + str(ts.errors), loc=F.file,
                site="%s/balance" % F.name)
@@ -77,8 +162,12 @@ def rule_R1_R2_R3(P, rep):
     L = "ABTI_global::xstream_list_lock"
     for fn in ("xstream_set_new_rank", "xstream_change_rank", "xstream_return_rank"):
         F = P.fn(fn, S)
+        # tests of a stream's rank or of the requested rank (third parameter, whatever it is called); the
+        # tokens only tell the paths apart, the obligations below do not read them
+        want = _word(F.params[2]["n"]) if len(F.params) > 2 else None
         sel = seq.Sel(calls=listops | {"xstream_update_max_xstreams"}, fields={"num_xstreams", "rank"},
-                      conds=lambda t: "rank" in t, rets=True)
+                      conds=lambda t, want=want: "ABTI_xstream::rank" in t or (want is not None and want.search(t) is not None),
+                      rets=True, canon=True)
         kinds = set()
         for toks, kind, rv, rtxt in seq.sequences(F, sel, max_repeat=2, max_len=60):
             if kind != "ret":
@@ -121,8 +210,17 @@ def rule_R1_R2_R3(P, rep):
         if fn != "xstream_return_rank":
             rep.ob("R2", "%s can refuse and can grant" % fn, kinds == {"refused", "granted"}, str(kinds), loc=F.file, site="%s/kinds" % fn)
     G = P.fn("ABT_xstream_get_num", S)
-    st = [G.render(rh) for b, i, lh, rh in G.stores() if rh is not None and G.render(lh) == "*num_xstreams"]
-    rep.ob("R3", "ABT_xstream_get_num reports the maintained count", st == ["p_global->num_xstreams"], str(st), loc=G.file, site="get_num")
+    rep.need(len(G.params) == 1, "ABT_xstream_get_num no longer has exactly one (out) parameter")
+    out = G.params[0]["n"]
+    st = []
+    for b, i, lh, rh in G.stores():
+        ln = G.nodes[G.strip(lh)]
+        if rh is not None and ln.get("k") == "un" and ln["op"] == "*" and G.nodes[_look(G, ln["e"])[0]].get("n") == out:
+            st.append(canon.expr(G, rh))
+    rep.ob("R3", "ABT_xstream_get_num reports the maintained count", st == ["ABTI_global::num_xstreams"], str(st), loc=G.file, site="get_num")
+
+
+STATE = "ABTD_xstream_context::state"
 
 
 def rule_R4(P, rep):
@@ -130,30 +228,38 @@ def rule_R4(P, rep):
     for F in sorted(P.functions.values(), key=lambda f: f.line):
         if F.file != A:
             continue
-        stores = [(b, i) for b, i, lh, rh in F.stores() if F.fieldpath(lh) == "ABTD_xstream_context::state"]
+        stores = [(b, i) for b, i, lh, rh in F.stores() if F.fieldpath(lh) == STATE]
         waits = F.calls("pthread_cond_wait")
         if not stores and not waits:
             continue
-        ts = locks.run_locks(P, F)
+        ts = _run_locks(P, F)
         for b, i in stores:
             helds = ts.at.get(i, set())
-            ok = bool(helds) and all(any("state_lock" in k for k in h) for h in helds)
+            ok = bool(helds) and all(any(_is_lock(k, "state_lock") for k in h) for h in helds)
             exc = F.name == "ABTD_xstream_context_create"
+            nd = F.nodes[i]
+            what = "%s %s %s" % (STATE, nd.get("op", ""), canon.expr(F, nd["rh"]) if nd.get("k") == "bin" else "")
             rep.ob("R4", "%s stores the native-thread state under state_lock%s" % (F.name, " (exception: no thread exists yet / creation failed)" if exc else ""),
-                   ok or exc, "lock sets %s" % sorted(sorted(h) for h in helds), loc=F.loc(i), site="%s/store/%s" % (F.name, F.render(i)[:50]))
+                   ok or exc, "lock sets %s" % sorted(sorted(h) for h in helds), loc=F.loc(i), site="%s/store/%s" % (F.name, what[:80]))
         for b, i in waits:
             helds = ts.at.get(i, set())
-            ok = bool(helds) and all(any("state_lock" in k for k in h) for h in helds)
-            # the wait lies on a cycle whose exit condition re-reads the state
+            ok = bool(helds) and all(any(_is_lock(k, "state_lock") for k in h) for h in helds)
+            # the wait lies on a cycle whose exit condition re-reads the state (canonical label: the test may be
+            # written either way round, negated, or on a temporary that was loaded from the field inside the loop)
             loop = cfg.can_reach(F, i, i)
-            conds = [F.render(bb.tc) for bb in F.blocks.values() if bb.tc is not None and "->state" in F.render(bb.tc) and
-                     bb.elems and cfg.can_reach(F, i, bb.elems[-1]) and cfg.can_reach(F, bb.elems[-1], i)]
+            conds = []
+            for bb in F.blocks.values():
+                if bb.tc is None or not bb.elems:
+                    continue
+                lab = canon.cond(F, cfg.cond_atom(F, bb.tc)[0])[0]
+                if STATE in lab and cfg.can_reach(F, i, bb.elems[-1]) and cfg.can_reach(F, bb.elems[-1], i):
+                    conds.append(lab)
             rep.ob("R4", "%s: pthread_cond_wait under state_lock inside a loop that re-tests the state" % F.name,
                    ok and loop and bool(conds), "under lock=%s in loop=%s re-test=%s" % (ok, loop, conds), loc=F.loc(i),
                    site="%s/wait/%d" % (F.name, len(conds)))
         # each critical section that stores a state a peer waits for signals the condition
         sel = seq.Sel(calls={"pthread_cond_signal", "pthread_cond_broadcast", "pthread_cond_wait"}, fields={"state"},
-                      conds=lambda t: "->state" in t)
+                      conds=lambda t: STATE in t, canon=True)
         if F.name in ("ABTD_xstream_context_free", "ABTD_xstream_context_revive", "xstream_context_thread_func"):
             done = set()
             for toks, kind, rv, rtxt in seq.sequences(F, sel, max_repeat=1, max_len=60):
@@ -163,19 +269,19 @@ def rule_R4(P, rep):
                         sec = []
                     sec.append(t)
                     if t[0] == "rel":
-                        st = [u for u in sec if u[0] == "st" and u[1] == "ABTD_xstream_context::state"]
+                        st = [u for u in sec if u[0] == "st" and u[1] == STATE]
                         sig = [u for u in sec if u[0] == "call" and u[1] in ("pthread_cond_signal", "pthread_cond_broadcast")]
                         for u in st:
                             key = (F.name, u[3])
                             if key in done:
                                 continue
-                            done.add(key)
-                            need = True
                             if F.name == "xstream_context_thread_func":
-                                # WAITING is awaited only by a joiner that announced itself (REQ_JOIN)
-                                need = any(v[0] == "if" and "== ABTD_XSTREAM_CONTEXT_STATE_REQ_JOIN" in v[1] and v[2] for v in sec)
-                                if not need:
+                                # WAITING is awaited only by a joiner that announced itself (REQ_JOIN): the obligation
+                                # is evaluated on the paths of the section on which that request was seen
+                                if not any(v[0] == "if" and v[1] == STATE + " == ABTD_XSTREAM_CONTEXT_STATE_REQ_JOIN" and v[2]
+                                           for v in sec[:sec.index(u)]):
                                     continue
+                            done.add(key)
                             rep.ob("R4", "%s: the section storing state=%s signals the condition variable" % (F.name, u[3]), bool(sig),
                                    "no pthread_cond_signal in the critical section [%s]" % show(sec), loc=F.file,
                                    site="%s/signal/%s" % (F.name, u[3]))
@@ -195,7 +301,7 @@ def rule_R5(P, rep):
     F = P.fn("thread_main_sched_func", "src/thread.c")
 
     def conds(text, F, node):
-        ms = seq.macros_in(F, node)
+        ms = _macros_through(F, node)
         if "ABTI_SCHED_REQ_REPLACE" in ms:
             return "REPLACE"
         if "ABTI_THREAD_REQ_CANCEL" in ms:
@@ -203,8 +309,14 @@ def rule_R5(P, rep):
         if "ABTI_SCHED_REQ_FINISH" in ms:
             return "FINISH"
         return False
+    # canon: the REPLACE/CANCEL/FINISH labels carry the truth of "the request bit is set" however the test is
+    # written; stored values are rendered without local names (`p_new_sched` is ABTI_sched::p_replace_sched)
     sel = seq.Sel(calls={"ABTI_sched_discard_and_free", "ABTI_ythread_resume_and_push", "ABTI_sched_has_unit"}, fields={"p_main_sched", "used", "p_ythread"},
-                  conds=conds, indirect=True)
+                  conds=conds, indirect=True, canon=True)
+
+    def obj(tok, side):
+        """Object-preserving access path of the target / the value of a recorded store."""
+        return canon.rooted(F, F.nodes[tok[4]][side])
     n = 0
     for toks, kind, rv, rtxt in seq.sequences(F, sel, max_repeat=1, max_len=60):
         rp = [i for i, t in enumerate(toks) if t[0] == "if" and t[1] == "REPLACE"]
@@ -216,7 +328,7 @@ def rule_R5(P, rep):
         fr = idx(toks, is_call("ABTI_sched_discard_and_free"))
         rs = idx(toks, is_call("ABTI_ythread_resume_and_push"))
         fin = [i for i, t in enumerate(toks) if t[0] == "if" and t[1] in ("CANCEL", "FINISH") and i > rp[0]]
-        if len(inst) != 1 or toks[inst[0]][3] != "p_new_sched":
+        if len(inst) != 1 or toks[inst[0]][3] != "ABTI_sched::p_replace_sched":
             why.append("new scheduler not installed exactly once")
         if len(fr) != 1 or len(rs) != 1:
             why.append("old scheduler must be freed once and the waiter resumed once (freed %d, resumed %d)" % (len(fr), len(rs)))
@@ -225,11 +337,43 @@ def rule_R5(P, rep):
         if fin and rs and fin[0] < rs[0]:
             why.append("finish condition tested before the waiter was resumed")
         yt = [t for t in toks if t[0] == "st" and t[1] == "ABTI_sched::p_ythread"]
-        if not any(t[3] == "p_sched->p_ythread" for t in yt) or not any(t[3] == 0 for t in yt):
+        # hand-over: <replacement scheduler>->p_ythread = <other scheduler>->p_ythread; detach: <that other one>->p_ythread = NULL
+        handed = [t for t in yt if t[3] == "ABTI_sched::p_ythread" and "p_replace_sched" in obj(t, "lh") and
+                  "p_replace_sched" not in obj(t, "rh")]
+        detached = [t for t in yt if t[3] == 0 and "p_replace_sched" not in obj(t, "lh")]
+        if not handed or not detached:
             why.append("the scheduler ULT must be handed to the new scheduler and detached from the old one before it is freed")
         rep.ob("R5", "main scheduler loop handles REQ_REPLACE [%s]" % show(toks)[:200], not why, "; ".join(why),
                loc="%s:%d" % (F.file, F.line), site="main_sched/replace")
     rep.need(n >= 1, "thread_main_sched_func never handles REQ_REPLACE")
+
+
+def _pools_bound(F, B):
+    """If block B branches on `<counter> < X->num_pools` (written in any equivalent way: `>`, negated
+    `>=`/`<=`, `!=`/`==`, the bound first copied into a local), return (counter variable, owner of the
+    bound as an object path, successor on which the counter is in range, record type of the bound,
+    whether a local temporary was looked through)."""
+    if B.tc is None or len(B.succs) != 2:
+        return None
+    aj, at = cfg.cond_atom(F, B.tc)
+    c = F.nodes[aj]
+    if c.get("k") != "bin" or c["op"] not in ("<", ">", "<=", ">=", "!=", "=="):
+        return None
+    for cnt, bnd, op in ((c["lh"], c["rh"], c["op"]), (c["rh"], c["lh"], {"<": ">", ">": "<", "<=": ">=", ">=": "<="}.get(c["op"], c["op"]))):
+        # op is now read as `counter op bound`
+        if op not in ("<", ">=", "!=", "=="):
+            continue
+        bi, bat = _look(F, bnd)
+        bn = F.nodes[bi]
+        cn = F.nodes[_look(F, cnt)[0]]
+        if bn.get("k") != "mem" or bn["f"] != "num_pools" or cn.get("k") != "ref" or cn.get("dk") not in ("var", "param"):
+            continue
+        in_range_when_atom = op in ("<", "!=")          # truth of the atom on which counter < bound
+        succ = B.succs[0] if (at == in_range_when_atom) else B.succs[1]
+        if succ is None:
+            return None
+        return cn["n"], canon.rooted(F, bn["b"], at=bat), succ, bn.get("r"), bat != bnd
+    return None
 
 
 def rule_R6(P, rep):
@@ -237,36 +381,41 @@ def rule_R6(P, rep):
     for F in sorted(P.functions.values(), key=lambda f: (f.file, f.line)):
         dom = None
         for bid, B in F.blocks.items():
-            if B.tc is None or len(B.succs) != 2 or B.succs[0] is None:
+            r = _pools_bound(F, B)
+            if r is None:
                 continue
-            c = F.nodes[cfg.cond_atom(F, B.tc)[0]]
-            if c.get("k") != "bin" or c["op"] not in ("<", "!="):
-                continue
-            rh = F.nodes[F.strip(c["rh"])]
-            lh = F.nodes[F.strip(c["lh"])]
-            if rh.get("k") != "mem" or rh["f"] != "num_pools" or lh.get("k") != "ref":
-                continue
-            ivar = lh["n"]
-            owner = F.render(rh["b"])
+            ivar, owner, first, rec, via_tmp = r
             if dom is None:
                 dom = cfg.dominators(F)
-            body = {b for b in cfg.reachable_blocks(F, B.succs[0]) if B.succs[0] in dom.get(b, ()) and bid in cfg.reachable_blocks(F, b)}
+            body = {b for b in cfg.reachable_blocks(F, first) if first in dom.get(b, ()) and bid in cfg.reachable_blocks(F, b)}
             for b in body:
                 for i in F.blocks[b].elems:
                     nd = F.nodes[i]
-                    if nd.get("k") == "idx" and F.render(nd["i"]) == ivar:
-                        bn = F.nodes[F.strip(nd["b"])]
-                        if bn.get("k") == "mem" and bn["f"] == "pools":
-                            n += 1
-                            arr_owner = F.render(bn["b"])
-                            rep.ob("R6", "%s: loop over %s->num_pools indexes %s->pools" % (F.name, owner, arr_owner),
-                                   arr_owner == owner, "the bound belongs to %s but the array to %s: the scan is truncated or runs "
-                                   "out of bounds when the two objects have different pool counts" % (owner, arr_owner),
-                                   loc=F.loc(i), site="%s/pools-loop/%s" % (F.name, arr_owner))
+                    if nd.get("k") != "idx":
+                        continue
+                    xn = F.nodes[_look(F, nd["i"])[0]]
+                    if xn.get("k") != "ref" or xn["n"] != ivar:
+                        continue
+                    bi, bat = _look(F, nd["b"])
+                    bn = F.nodes[bi]
+                    if bn.get("k") == "mem" and bn["f"] == "pools":
+                        if bn.get("r") != rec and (via_tmp or bat != nd["b"]):
+                            # a count and an array of two different record types met through local copies
+                            # (the basic schedulers keep a private sorted copy of the pool array next to the
+                            # scheduler's own count): not two objects of one kind, nothing to compare
+                            continue
+                        n += 1
+                        arr_owner = canon.rooted(F, bn["b"], at=bat)
+                        rep.ob("R6", "%s: loop over %s->num_pools indexes %s->pools" % (F.name, owner, arr_owner),
+                               arr_owner == owner, "the bound belongs to %s but the array to %s: the scan is truncated or runs "
+                               "out of bounds when the two objects have different pool counts" % (owner, arr_owner),
+                               loc=F.loc(i), site="%s/pools-loop/%s" % (F.name, arr_owner))
     rep.need(n >= 8, "only %d num_pools-bounded array accesses found" % n)
 
 
 def run(P, rep, tier):
+    if tier == "thorough":
+        common.rule_X4(P, rep)
     common.run_shared(P, rep, which=("X2",))
     rule_R1_R2_R3(P, rep)
     rule_R4(P, rep)
